@@ -616,14 +616,17 @@ impl SlabRouter {
     ///
     /// Returns an error if snapshot save or WAL operations fail.
     pub fn checkpoint(&self, snapshot_path: &Path) -> Result<u64, SlabRouterError> {
+        // The log lock is held from here to the truncation. A durable write appends its
+        // record and applies it under this lock; one that slipped in between the snapshot and
+        // the truncation would be in neither of them, i.e. acknowledged and lost by a crash.
+        let mut wal = self.wal.as_ref().map(|wal_mutex| wal_mutex.lock());
+
         // Make the log on disk at least as new as the snapshot about to be written.
         // Under batched/manual sync the snapshot would otherwise contain writes whose
         // log records are still buffered; a crash before the checkpoint marker would
         // then replay the older on-disk log over the newer snapshot and mix states.
-        if let Some(wal_mutex) = &self.wal {
-            wal_mutex
-                .lock()
-                .sync()
+        if let Some(wal) = wal.as_mut() {
+            wal.sync()
                 .map_err(|e| SlabRouterError::WalError(format!("Failed to sync WAL: {e}")))?;
         }
 
@@ -638,9 +641,7 @@ impl SlabRouter {
         let checkpoint_id = self.checkpoint_counter.fetch_add(1, Ordering::SeqCst);
 
         // Log checkpoint marker and truncate WAL
-        if let Some(wal_mutex) = &self.wal {
-            let mut wal = wal_mutex.lock();
-
+        if let Some(wal) = wal.as_mut() {
             let entry = WalEntry::Checkpoint {
                 snapshot_id: checkpoint_id,
             };
@@ -655,6 +656,7 @@ impl SlabRouter {
             #[cfg(neumann_verif)]
             crate::verif_hooks::crash_point("ckpt.truncated");
         }
+        drop(wal);
 
         Ok(checkpoint_id)
     }
